@@ -96,6 +96,11 @@ func (c *conn) closeNotify() <-chan struct{} {
 	defer c.mu.Unlock()
 	if c.closeNotifyc == nil {
 		c.closeNotifyc = make(chan struct{})
+		if c.clientGone {
+			// The connection has already terminated.
+			close(c.closeNotifyc)
+			return c.closeNotifyc
+		}
 
 		if msc, isMulti := c.rwc.(MultistreamConn); isMulti {
 			// MultistreamConn provides it's own error handler
@@ -130,10 +135,28 @@ func (c *conn) closeNotify() <-chan struct{} {
 func (c *conn) notifyClientGone() {
 	c.mu.Lock()
 	defer c.mu.Unlock()
-	if c.closeNotifyc != nil && !c.clientGone {
-		close(c.closeNotifyc) // unblock readers
+	if !c.clientGone {
 		c.clientGone = true
+		if c.closeNotifyc != nil {
+			close(c.closeNotifyc) // unblock readers
+		}
 	}
+}
+
+// finish is called when the serve loop ends, whatever the reason: it fires
+// the close notification (the reader may never have switched to the pipe,
+// in which case nobody else would) and closes the read end of the pipe so
+// that a copier goroutine blocked in a pipe write can exit.
+func (c *conn) finish() {
+	c.sr.Lock()
+	if pr, ok := c.sr.r.(*io.PipeReader); ok {
+		pr.Close()
+	}
+	if c.sr.pr != nil {
+		c.sr.pr.Close()
+	}
+	c.sr.Unlock()
+	c.notifyClientGone()
 }
 
 // Create new connection from rwc.
@@ -184,6 +207,7 @@ func (c *conn) serve() {
 				c.rwc.RemoteAddr().String(), err, buf)
 		}
 		c.rwc.Close()
+		c.finish()
 	}()
 	if tlsConn, ok := c.rwc.(*tls.Conn); ok {
 		if err := tlsConn.Handshake(); err != nil {
